@@ -14,6 +14,7 @@ import (
 	"sort"
 	"strconv"
 	"strings"
+	"sync"
 	"unicode/utf8"
 
 	"github.com/gin-gonic/gin"
@@ -532,6 +533,159 @@ func main() {
 			for cc := 1; cc <= 3; cc++ {
 				noopCase("corpus", rt, cc, false, &script{status: 200, headers: headerSets[1], chunks: chunkBody(b, r, 1)})
 			}
+		}
+	}
+
+	// instance reuse, sequential: ONE long-lived gateway per configuration (all gateways of this
+	// generator are built once and serve every case of their configuration) is sent consecutive
+	// requests whose documents / statuses / header sets / bodies differ: anything kept from an
+	// earlier request (a decoded map, a status, a header, a buffer) shows in a later reply
+	{
+		objSeq := []interface{}{
+			obj{"a": num("1"), "b": obj{"x": arr{num("1"), num("2")}}, "only_first": num("12345678901234567890")},
+			obj{"c": "second", "b": obj{"y": nil}},
+			obj{},
+			obj{"a": num("2.50")},
+			obj{"collection": arr{num("7")}, "content": "z"},
+			obj{"a": num("1"), "b": obj{"x": arr{num("1"), num("2")}}, "only_first": num("12345678901234567890")},
+		}
+		anySeq := []interface{}{obj{"k": num("1e400")}, arr{num("1"), "two"}, num("-0.0"), obj{}, arr{}, nil, "s", obj{"k2": true}}
+		arrSeq := []interface{}{arr{num("1"), num("2"), num("3")}, arr{}, arr{obj{"k": num("1")}}, arr{num("9007199254740993")}, arr{"x"}, arr{num("1"), num("2"), num("3")}}
+		for _, rt := range routers {
+			for _, cc := range []int{1, 2} {
+				for _, d := range objSeq {
+					bodyCase("reuse-seq", gwcfg{rt, "json", false, "json", cc, false, false}, docIn(d, r, style{}), r, false, 200, 0)
+				}
+				for _, d := range anySeq {
+					bodyCase("reuse-seq", gwcfg{rt, "safejson", false, "json", cc, true, false}, docIn(d, r, style{}), r, cc == 2, 200, 1)
+				}
+			}
+			for _, d := range arrSeq {
+				bodyCase("reuse-seq", gwcfg{rt, "json", true, "json-collection", 1, false, false}, docIn(d, r, style{}), r, false, 201, 0)
+			}
+			for _, d := range arrSeq {
+				bodyCase("reuse-seq", gwcfg{rt, "json", true, "json", 1, false, false}, docIn(d, r, style{}), r, false, 200, 0)
+			}
+			for _, t := range []string{"first text, rather long, 0123456789", "", "%d %s", "second", "\x00\xff", "first text, rather long, 0123456789"} {
+				bodyCase("reuse-seq", gwcfg{rt, "string", false, "string", 1, false, false}, bodyIn{text: []byte(t)}, r, false, 200, 0)
+			}
+			for _, raw := range []bool{false, true} {
+				seq := []*script{
+					{status: 207, headers: headerSets[1], chunks: chunkBody(randBytes(r, 5000, 1), r, 1)},
+					{status: 404, headers: headerSets[0]},
+					{status: 200, headers: headerSets[2], chunks: chunkBody(randBytes(r, 70000, 0), r, 2)},
+					{status: 500, headers: headerSets[7], chunks: [][]byte{[]byte("x")}},
+					{status: 204, headers: headerSets[3]},
+					{status: 200, headers: headerSets[1], chunks: [][]byte{[]byte("small")}, fixedLen: true},
+					{status: 207, headers: headerSets[4], chunks: chunkBody(randBytes(r, 5000, 2), r, 3)},
+				}
+				for _, sc := range seq {
+					noopCase("reuse-seq", rt, 1, raw, sc)
+				}
+			}
+		}
+	}
+	// instance reuse, concurrent: ONE gateway hit from 12 goroutines released by a start gate, each
+	// request naming (query parameter id, forwarded by the endpoint) which of 10 distinct backend
+	// replies it wants; every distinct (input, observation) pair is emitted once
+	{
+		iters := 50
+		if thorough {
+			iters = 400
+		}
+		type cconf struct {
+			g    gwcfg
+			kind int // 0 objects, 1 arrays, 2 any, 3 text, 4 no-op
+		}
+		confs := []cconf{
+			{gwcfg{"Gin", "json", false, "json", 1, false, true}, 0},
+			{gwcfg{"Mux", "json", false, "json", 2, true, true}, 0},
+			{gwcfg{"Gin", "safejson", false, "json", 1, true, true}, 2},
+			{gwcfg{"Mux", "json", true, "json-collection", 1, false, true}, 1},
+			{gwcfg{"Mux", "string", false, "string", 1, false, true}, 3},
+			{gwcfg{"Gin", "string", false, "json", 1, false, true}, 3},
+			{gwcfg{router: "Gin", be: "no-op", oe: "no-op", cc: 1, raw: false, byID: true}, 4},
+			{gwcfg{router: "Mux", be: "no-op", oe: "no-op", cc: 1, raw: true, byID: true}, 4},
+		}
+		const distinct = 10
+		const goroutines = 12
+		for ci, cf := range confs {
+			ins := make([]bodyIn, distinct)
+			scs := make([]*script, distinct)
+			refs := make([]reply, distinct)
+			gzs := make([]bool, distinct)
+			for j := 0; j < distinct; j++ {
+				rr := r.Sub()
+				id := fmt.Sprintf("%d-%d", ci, j)
+				switch cf.kind {
+				case 4:
+					n := []int{0, 1, 100, 4096, 33000, 70000, 150000, 5, 40000, 2000}[j]
+					scs[j] = &script{status: statuses[(j*3)%(len(statuses)-2)], headers: headerSets[j%len(headerSets)], chunks: chunkBody(randBytes(rr, n, j%3), rr, j%4), fixedLen: j%3 == 0}
+					if scs[j].status == 304 {
+						scs[j].status = 206
+					}
+					wd.register(id, scs[j])
+					refs[j] = wd.directID(id)
+					checkRef(refs[j], scs[j])
+				case 3:
+					ins[j] = bodyIn{text: []byte(fmt.Sprintf("text-%d-%s", j, genStr(rr, trickyStrs)))}
+				default:
+					ins[j] = docIn(genDoc(rr, 1+rr.Intn(4), cf.kind), rr, style{ws: rr.Bool(), escapes: rr.Intn(3)})
+				}
+				if cf.kind != 4 {
+					gzs[j] = j%4 == 3
+					scs[j] = bodyScript(cf.g, ins[j], rr, gzs[j], 200+j%2, j%3)
+					wd.register(id, scs[j])
+				}
+			}
+			type seen struct {
+				j   int
+				rep reply
+			}
+			res := make([]map[string]seen, goroutines)
+			start := make(chan struct{})
+			var wg sync.WaitGroup
+			for gi := 0; gi < goroutines; gi++ {
+				res[gi] = map[string]seen{}
+				wg.Add(1)
+				go func(gi int) {
+					defer wg.Done()
+					<-start
+					for k := 0; k < iters; k++ {
+						j := (gi*7 + k*3 + k/distinct) % distinct
+						rep := wd.callID(cf.g, fmt.Sprintf("%d-%d", ci, j))
+						key := fmt.Sprintf("%02d|%d|%s|%s", j, rep.status, token(rep.body), rep.err)
+						if cf.kind == 4 {
+							key += fmt.Sprint(flatten(rep.header))
+						}
+						if _, ok := res[gi][key]; !ok {
+							res[gi][key] = seen{j, rep}
+						}
+					}
+				}(gi)
+			}
+			close(start)
+			wg.Wait()
+			all := map[string]seen{}
+			for gi := range res {
+				for k, v := range res[gi] {
+					all[k] = v
+				}
+			}
+			keys := make([]string, 0, len(all))
+			for k := range all {
+				keys = append(keys, k)
+			}
+			sort.Strings(keys)
+			for _, k := range keys {
+				v := all[k]
+				if cf.kind == 4 {
+					emitNoop("reuse-concurrent", cf.g.router, 1, cf.g.raw, scs[v.j], refs[v.j], v.rep)
+				} else {
+					emitBody("reuse-concurrent", cf.g, ins[v.j], scs[v.j], v.rep, gzs[v.j], scs[v.j].status)
+				}
+			}
+			w.Count(fmt.Sprintf("reuse-concurrent-requests:%d", goroutines*iters))
 		}
 	}
 
